@@ -419,13 +419,26 @@ func (w *World) enabled() []*simrt.Task {
 //go:norace
 func (w *World) advanceTo(at time.Time, why string) {
 	w.Advances++
-	w.Logf("advance to +%dus (%s)", at.Sub(w.Start).Microseconds(), why)
+	seq := w.Logf("advance to +%dus (%s)", at.Sub(w.Start).Microseconds(), why)
+	var armed []*simrt.Task
+	for _, t := range w.S.Tasks() {
+		if t.Armed() {
+			armed = append(armed, t)
+		}
+	}
 	if !at.After(time.Now()) {
 		// harness sleep deadlines are inclusive
 		w.S.AdvanceBy(0)
-		return
+	} else {
+		w.S.AdvanceTo(at)
 	}
-	w.S.AdvanceTo(at)
+	// a timer callback is an operation that begins when the timer fires (its goroutine
+	// exists from then on), not when the scheduler first lets it run
+	for _, t := range armed {
+		if !t.Armed() && t.OpSeq == 0 {
+			t.OpSeq = seq
+		}
+	}
 }
 
 //go:norace
